@@ -92,8 +92,9 @@ func registerHandlebarsHelpers() {
 				// Currently, only 'string' parameters don't undergo any validation
 				return options.Fn()
 			}
-			if (strings.HasPrefix(param.TypeMeta.Name, "[]") || strings.HasPrefix(param.TypeMeta.Name, "*[]")) && param.PassedIn == definitions.PassedInBody {
-				// Body of array needs conversion
+			if param.PassedIn == definitions.PassedInBody {
+				// A body is always bound and validated through the conversion error, whatever its type -
+				// an array, or a struct reached through an alias declaration
 				return options.Fn()
 			}
 		}
